@@ -76,6 +76,35 @@ class Interp:
         self.problems = []
         self.model_writes = 0
 
+    def helper_offset(self, node):
+        """`self.<helper>(param_name, c*h)` as the parameter set of an evaluation: the helper is evaluated (templates.StrExec) on a sample
+        parameter dictionary whose names contain one another (k1, k10, kd, d) with a concrete shift; it must return the originals with
+        exactly the named parameter moved by the shift.  Returns the offset (multiple of h), a problem text, or None if not a helper."""
+        if not (isinstance(node, ast.Call) and isinstance(node.func, ast.Attribute) and src(node.func.value) == 'self' and node.func.attr in self.methods
+                and len(node.args) == 2 and src(node.args[0]) == self.pname):
+            return None
+        c = coef_of_h(node.args[1])
+        if c is None:
+            return 'the helper %s is given a shift that is not a multiple of h' % src(node)
+        from ..templates import StrExec, UNKNOWN
+        m = self.methods[node.func.attr]
+        names = [a.arg for a in m.args.args[1:]]
+        sample = {'k1': 1.0, 'k10': 2.0, 'kd': 3.0, 'd': 4.0}
+        for target in ('k10', 'kd'):
+            ex = StrExec({names[0]: target, names[1]: 0.5, 'self.original_parameters': dict(sample)}, tracked=set(), is_sub=True)
+            try:
+                ex.run(m.body)
+                got = UNKNOWN
+            except Exception as e_:
+                got = getattr(e_, 'value', UNKNOWN)
+            want = dict(sample)
+            want[target] = sample[target] + 0.5
+            if got is UNKNOWN or not isinstance(got, dict):
+                return 'the parameter set built by %s could not be evaluated' % src(node)
+            if got != want:
+                return ('%s(%r, 0.5) on %r gives %r: not the originals with %s alone moved by the shift' % (node.func.attr, target, sample, got, target))
+        return c
+
     def step(self, s):
         if isinstance(s, ast.Expr) and isinstance(s.value, ast.Call):
             c = s.value
@@ -153,8 +182,18 @@ class Interp:
             point = {k: o for k, o in self.xoff[xs].items() if o != 0}
             poffset = sp.Integer(0)
             if len(call.args) > 1 or any(k.arg == 'params' for k in call.keywords):
-                pv = src(call.args[1]) if len(call.args) > 1 else src([k.value for k in call.keywords if k.arg == 'params'][0])
-                if pv in self.poff:
+                pnode = call.args[1] if len(call.args) > 1 else [k.value for k in call.keywords if k.arg == 'params'][0]
+                pv = src(pnode)
+                helper = self.helper_offset(pnode)
+                if helper is not None:
+                    # a parameter set built by a helper of the class: evaluated on a sample (see helper_offset)
+                    if isinstance(helper, str):
+                        self.problems.append(helper)
+                    else:
+                        poffset = helper
+                        self.model = poffset
+                        self.model_writes += 1
+                elif pv in self.poff:
                     poffset = self.poff[pv]
                     self.model = poffset
                     self.model_writes += 1
